@@ -1022,6 +1022,8 @@ class Fxp():
                         # unsigned codes of less than 64 bits read as (signed) integers: arithmetic on them must not wrap at zero
                         val = val.astype(np.int64)
                 else:
+                    if self.n_frac >= 63 and isinstance(raw_val, (np.ndarray, np.generic)) and raw_val.dtype != object:
+                        raw_val = raw_val.astype(object)        # the conversion factor does not fit the 64-bit integer types
                     val = np.asarray(raw_val // self._get_conv_factor())    # a 0-d array of python integers divides to a bare int
                     val = np.array(list(map(int, val.flatten())), dtype=(object if val.dtype == object else None)).reshape(val.shape)
                 
